@@ -70,6 +70,10 @@ def build(combo, rng):
     crc = combo['crc']
     for eid in {'none': [], 'other': ['dtn://prev-hop/'], 'self': [NODE], 'two': ['dtn://prev-hop/', 'ipn:5.0']}[combo['prev']]:
         blocks.append(dict(type=6, num=nums.pop(0), flags=0, crc_type=crc, data=cw.enc(bpv7.eid_to_item(eid)), crc=None))
+    if blocks and rng.random() < 0.12:
+        # the previous node named by an endpoint id of a scheme this node does not know (scheme codes are extensible): still a
+        # Previous Node block, to be replaced like any other
+        blocks[0]['data'] = cw.enc(rng.choice([[3, 'x'], [65535, [1, 2]], [3, 0]]))
     for idx in range(combo['hops']):
         blocks.append(dict(type=10, num=nums.pop(0), flags=rng.choice([0, 1]), crc_type=crc,
                            data=cw.enc([rng.choice([5, 30, 255]), rng.choice([0, 1, 23, 24]) + idx]), crc=None))
